@@ -18,7 +18,7 @@ BUDGET_S = {"quick": 170, "thorough": 3000}
 
 W = {"loc_slice": 2.5, "set_index": 2.5, "sort_values": 1.5, "merge_index": 2.5, "concat0": 2, "concat1": 1.5, "repartition": 2.5, "partitions": 2.5, "head": 2, "cut": 1.5,
      "index_of": 1.5, "filter_pred": 2, "shift": 1, "cum": 1, "reset_index": 1, "merge": 1.5, "groupby_agg": 1.5, "reduce": 1.0, "map_partitions": 1,
-     "cum_frame": 1.0, "rolling": 0.8, "loc_list": 1.5, "merge_lr": 1.0, "combine_first": 0.8, "map_overlap": 0.8}
+     "cum_frame": 1.0, "rolling": 0.8, "mode": 0.8, "value_counts": 0.8, "unique": 0.8, "frame_nunique": 0.5, "loc_list": 1.5, "merge_lr": 1.0, "combine_first": 0.8, "map_overlap": 0.8}
 PROFILE_Q = gen.Profile("structure", weights=W, max_steps=5, max_rows=10)
 PROFILE_T = gen.Profile("structure", weights=W, max_steps=9, max_rows=16, n_tables=(1, 3))
 PID = "C06"
